@@ -34,19 +34,16 @@ def _demsg(k):
 
 def _lits(k, pol):
     """Flatten one condition into a set of literal keys."""
-    if not pol:
-        k = sym.b_not(k)
-    if k[0] == 'and':
-        out = set()
-        for x in k[1]:
-            out |= _lits(x, True)
-        return out
-    if k[0] == 'const':
-        return set() if k[1] else {('const', False)}
-    return {k}
+    return sym.lits_of(k, pol)
 
 
-def signature(path, keep_raise_args=False, ignore_attr_stores=()):
+def signature(path, keep_raise_args=False, ignore_attr_stores=(),
+              strict=False):
+    """strict: nothing is abstracted away (message texts, prints and the
+    arguments of raised exceptions are part of the signature)."""
+    if strict:
+        keep_raise_args = True
+    demsg = (lambda k: k) if strict else _demsg
     conds = set()
     for k, pol in path.conds():
         conds |= _lits(k, pol)
@@ -55,6 +52,9 @@ def signature(path, keep_raise_args=False, ignore_attr_stores=()):
         out = ('raise', o[1]) + ((o[2],) if keep_raise_args else ())
     else:
         out = o
+        # on a path where `x is None` holds, returning x is returning None
+        if o[0] == 'return' and ('cmp', 'is', o[1], ('const', None)) in conds:
+            out = ('return', ('const', None))
     effects = []
     for e in path.trace:
         if e[0] == 'store':
@@ -63,24 +63,27 @@ def signature(path, keep_raise_args=False, ignore_attr_stores=()):
             effects.append(('store', e[1], e[2]))
         elif e[0] == 'expr':
             k = e[1]
-            if k[0] == 'call' and sym.Evaluator()._call_name(k[1]) \
-                    in IGNORED_CALLS:
+            if not strict and k[0] == 'call' and sym.Evaluator(
+                    )._call_name(k[1]) in IGNORED_CALLS:
                 continue
             if k[0] == 'const':
                 continue
-            effects.append(('do', _demsg(k)))
+            effects.append(('do', demsg(k)))
         elif e[0] == 'del':
             effects.append(('del', e[1]))
         elif e[0] == 'aug':
             pass  # covered by the store / env value
         elif e[0] == 'loop':
-            effects.append(('loop', e[1], _loop_sig(e[2])))
+            ls = _loop_sig(e[2], strict)
+            if ls is not None:
+                effects.append(('loop', e[1], ls))
         elif e[0] in ('except', 'caught'):
             effects.append((e[0], e[1] if e[0] == 'except' else e[2]))
     return (frozenset(conds), out, tuple(effects))
 
 
-def _loop_sig(body_events):
+def _loop_sig(body_events, strict=False):
+    demsg = (lambda k: k) if strict else _demsg
     out = []
     for trace, o in body_events:
         ev = []
@@ -92,16 +95,160 @@ def _loop_sig(body_events):
                 ev.append(('store', e[1], e[2]))
             elif e[0] == 'expr':
                 k = e[1]
-                if k[0] == 'call' and sym.Evaluator()._call_name(k[1]) \
-                        in IGNORED_CALLS:
+                if not strict and k[0] == 'call' and sym.Evaluator(
+                        )._call_name(k[1]) in IGNORED_CALLS:
                     continue
-                ev.append(('do', _demsg(k)))
+                ev.append(('do', demsg(k)))
             elif e[0] == 'aug':
                 pass    # the store event carries the same information
+            elif e[0] == 'del':
+                ev.append(('del', e[1]))
+            elif e[0] in ('except', 'caught'):
+                ev.append((e[0], e[1] if e[0] == 'except' else e[2]))
             elif e[0] == 'loop':
-                ev.append(('loop', e[1], _loop_sig(e[2])))
-        out.append((frozenset(conds), tuple(ev), o))
-    return frozenset(out)
+                ls = _loop_sig(e[2], strict)
+                if ls is not None:
+                    ev.append(('loop', e[1], ls))
+        out.append((frozenset(conds), o, tuple(ev)))
+    if not any(ev for _, _, ev in out):
+        # a loop without effects: whatever it computes is in the values
+        # that use it (sum / any / comprehension forms)
+        return None
+    try:
+        return canon(out)
+    except (_TooBig, RecursionError):
+        return frozenset(out)
+
+
+class _TooBig(Exception):
+    pass
+
+
+class BDD(object):
+    """Reduced ordered binary decision diagrams over predicate atoms; a node
+    is True, False or (atom, low, high) with atoms ordered by their repr --
+    the tuple itself is the canonical form of the boolean function."""
+
+    LIMIT = 200000
+
+    def __init__(self):
+        self.memo = {}
+        self.rk = {}
+
+    def rank(self, atom):
+        r = self.rk.get(atom)
+        if r is None:
+            r = self.rk[atom] = repr(atom)
+        return r
+
+    def mk(self, atom, lo, hi):
+        return lo if lo == hi else (atom, lo, hi)
+
+    def neg(self, u):
+        if u is True or u is False:
+            return not u
+        k = ('neg', u)
+        r = self.memo.get(k)
+        if r is None:
+            r = self.memo[k] = self.mk(u[0], self.neg(u[1]), self.neg(u[2]))
+        return r
+
+    def apply(self, op, u, v):
+        if op == 'and':
+            if u is False or v is False:
+                return False
+            if u is True:
+                return v
+            if v is True:
+                return u
+        else:
+            if u is True or v is True:
+                return True
+            if u is False:
+                return v
+            if v is False:
+                return u
+        if u == v:
+            return u
+        k = (op, u, v)
+        r = self.memo.get(k)
+        if r is not None:
+            return r
+        if len(self.memo) > self.LIMIT:
+            raise _TooBig()
+        ru, rv = self.rank(u[0]), self.rank(v[0])
+        if ru == rv:
+            r = self.mk(u[0], self.apply(op, u[1], v[1]),
+                        self.apply(op, u[2], v[2]))
+        elif ru < rv:
+            r = self.mk(u[0], self.apply(op, u[1], v), self.apply(op, u[2], v))
+        else:
+            r = self.mk(v[0], self.apply(op, u, v[1]), self.apply(op, u, v[2]))
+        self.memo[k] = r
+        return r
+
+    def of(self, k):
+        """BDD of a boolean key."""
+        if k[0] == 'const':
+            return bool(k[1])
+        if k[0] == 'not':
+            return self.neg(self.of(k[1]))
+        if k[0] in ('and', 'or'):
+            r = (k[0] == 'and')
+            for x in k[1]:
+                r = self.apply(k[0], r, self.of(x))
+            return r
+        a, pol = sym.atom_of(k)
+        n = (a, False, True)
+        return n if pol else self.neg(n)
+
+
+def canon(sigs, bdd=None):
+    """Canonical form of a set of path signatures: for every (outcome,
+    effects) the boolean function (as a reduced ordered BDD) of the
+    conditions under which it is reached.  Independent of how a decision is
+    spelled: nested ifs or one conjunction, elif chain or early returns, De
+    Morgan forms, a predicate inlined or extracted, redundant tests."""
+    bdd = bdd or BDD()
+    by = {}
+    for conds, out, eff in sigs:
+        cube = True
+        for lit in sorted(conds, key=repr):
+            cube = bdd.apply('and', cube, bdd.of(lit))
+        by[(out, eff)] = bdd.apply('or', by.get((out, eff), False), cube)
+    return frozenset((oe, f) for oe, f in by.items() if f is not False)
+
+
+def equivalent(a, b):
+    """Are two sets of path signatures the same decision table?"""
+    if a == b:
+        return True
+    try:
+        return canon(a - b) == canon(b - a)
+    except (_TooBig, RecursionError):
+        return False
+
+
+def strict_equivalent(node, ref):
+    """Is the repository function `node` the same function as `ref` (its
+    reviewed text) in every respect a rule could look at?  Same decorators,
+    same parameter list, and the same decision table over strict path
+    signatures (messages, prints and raise arguments included)."""
+    if ast.dump(node.args) != ast.dump(ref.args):
+        return False
+    if [ast.dump(d) for d in node.decorator_list] != [
+            ast.dump(d) for d in ref.decorator_list]:
+        return False
+    ref._ctx_from = node
+    try:
+        opaque = tuple(sym.TRANSPARENT_CALLS)
+        a = set(signature(p, strict=True)
+                for p in sym.Summarizer(opaque=opaque).summarize(node))
+        b = set(signature(p, strict=True)
+                for p in sym.Summarizer(opaque=opaque).summarize(ref))
+    except AnalysisError:
+        return False
+    return equivalent(a, b)
 
 
 def show_sig(sig):
@@ -161,6 +308,7 @@ def rename_params(ref, actual):
             return n
     ref = R().visit(ref)
     ast.fix_missing_locations(ref)
+    ref._ctx_from = getattr(actual, '_ctx_from', actual)
     return ref
 
 
@@ -183,9 +331,11 @@ def compare(func, ref_text, keep_raise_args=False, ignore_attr_stores=(),
             for p in sym.Summarizer(transparent=transparent).summarize(func))
     b = set(signature(p, keep_raise_args, ignore_attr_stores)
             for p in sym.Summarizer(transparent=transparent).summarize(ref))
+    if equivalent(a, b):
+        return (not extra), extra, []
     only_a = sorted(show_sig(s) for s in a - b)
     only_b = sorted(show_sig(s) for s in b - a)
-    return (a == b and not extra), extra + only_a, only_b
+    return False, extra + only_a, only_b
 
 
 def check(chk, rule, rel, func, ref_text, what, key=None, **kw):
